@@ -113,7 +113,7 @@ func TestC17Admit(t *testing.T) {
 func TestC17Wire(t *testing.T) {
 	rapid.Check(t, func(rt *rapid.T) {
 		c := WireCase{
-			Reader:  rapid.SampledFrom([]string{"udp", "udp", "tcp", "auto"}).Draw(rt, "reader"),
+			Reader:  rapid.SampledFrom([]string{"udp", "udp", "tcp", "auto", "mcast"}).Draw(rt, "reader"),
 			Pub:     rapid.SampledFrom([]string{"", "udp", "tcp"}).Draw(rt, "pub"),
 			Packets: rapid.IntRange(4, 40).Draw(rt, "packets"),
 			Size:    rapid.SampledFrom([]int{40, 64, 200, 1000, 1400}).Draw(rt, "size"),
@@ -139,6 +139,12 @@ func TestC17Wire(t *testing.T) {
 		}
 		if st.PlainPeer {
 			labels = append(labels, "second-reader-with-plain-profile")
+		}
+		if st.NoMulticast {
+			labels = append(labels, "multicast-unavailable(not judged)")
+		}
+		if st.Groups > 0 {
+			labels = append(labels, "multicast-groups-listened-to")
 		}
 		pbt.Count("C17", "packets_on_wire", int64(st.OnWire))
 		pbt.Count("C17", "packets_delivered", int64(st.Delivered))
